@@ -60,6 +60,79 @@ def use_deep(n: int) -> int:
 '''
 
 
+def wide_project(r: random.Random, prefix: str) -> tuple[dict[str, str], list[str]]:
+	"""Two modules built around what the fixtures of the repository never have: more than ten attributes on one level (parameters, tuple
+	elements, union members), forward references to a later class three and more type arguments deep, and imported module-level
+	variables whose types carry arguments."""
+	a, b = prefix + 'a', prefix + 'b'
+	pool = ['int', 'str', 'float', 'bool', 'list[int]', 'dict[str, int]', 'tuple[int, str]', 'Item', 'list[Item]', 'dict[str, list[Item]]', 'list[tuple[int, Item]]', 'dict[str, tuple[int, list[str]]]']
+	n = r.choice([10, 11, 12, 14])
+	ptypes = [r.choice(pool) for _ in range(n)]
+	params = ', '.join(f'a{i}: {t}' for i, t in enumerate(ptypes))
+	m = r.choice([11, 12, 13])
+	cells = ', '.join(r.choice(pool) for _ in range(m))
+	deep = r.choice(["dict[str, list[Entry]]", "list[dict[str, list[Entry]]]", "dict[str, tuple[int, list[Entry]]]", "dict[str, list[Entry | None]]"])
+	lib = f'''from collections.abc import Callable
+
+
+class Item:
+	n: int
+
+	def __init__(self) -> None:
+		self.n = 1
+
+
+table: dict[str, list[Item]] = {{}}
+names: list[str] = ['a']
+pairs = [(1, 'a')]
+nested: dict[str, tuple[int, list[str]]] = {{}}
+limit = 3
+
+
+class Registry:
+	def find(self, key: str) -> '{deep}':
+		return {{}}
+
+	def visit(self, f: 'Callable[[list[Entry]], {deep}]') -> None:
+		pass
+
+
+class Entry:
+	v: int
+
+	def __init__(self) -> None:
+		self.v = 0
+
+
+def wide({params}) -> tuple[{', '.join(ptypes)}]:
+	return ({', '.join(f'a{i}' for i in range(n))})
+
+
+class Row:
+	cells: tuple[{cells}]
+	many: int | str | float | bool | list[int] | dict[str, int] | Item | list[Item] | tuple[int, str] | list[str] | dict[str, str] | None
+
+	def __init__(self, cells: tuple[{cells}]) -> None:
+		self.cells = cells
+		self.many = None
+'''
+	main = f'''from {a} import table, names, pairs, nested, limit, Item, Row, Registry, wide
+
+
+def use(row: Row) -> int:
+	t = table
+	n = names
+	p = pairs
+	d = nested
+	c = row.cells
+	w = wide
+	reg = Registry()
+	found = reg.find('k')
+	return limit + len(t) + len(n) + len(p) + len(d)
+'''
+	return {a: lib, b: main}, [a, b]
+
+
 def describe(sym, depth: int = 6) -> tuple:
 	if depth <= 0:
 		return ('...',)
@@ -177,22 +250,28 @@ def shard(ctx: Ctx, acc: Acc) -> None:
 			acc.truncated_by_budget = True
 			break
 		r = ctx.rng('set', i)
-		shape = r.choice(['chain', 'diamond', 'pair', 'single'])
-		pr = make_project(r, shape, prefix=f'vf14_{i}_', size=r.choice([3, 5]))
-		sources = {n2: p.source for n2, p in pr.modules.items()}
-		last = pr.order[-1]
-		if r.random() < 0.5:
-			sources[last] += EXTRA
-		case = {'kind': 'generated', 'shape': shape, 'sources': sources, 'order': pr.order}
+		if i % 5 == 1:
+			sources, order = wide_project(r, f'vf14w_{i}_')
+			shape = 'wide'
+		else:
+			shape = r.choice(['chain', 'diamond', 'pair', 'single'])
+			pr = make_project(r, shape, prefix=f'vf14_{i}_', size=r.choice([3, 5]))
+			sources = {n2: p.source for n2, p in pr.modules.items()}
+			order = pr.order
+			last = order[-1]
+			if r.random() < 0.5:
+				sources[last] += EXTRA
+		acc.see('project_shape', shape)
+		case = {'kind': 'generated', 'shape': shape, 'sources': sources, 'order': order}
 		try:
 			for n2, src in sources.items():
 				s.set_source(n2, src)
-			for n2 in pr.order:
+			for n2 in order:
 				s.load(n2)
 			# modules are checked leaves-last so that dependants are still in the table while a dependency is re-imported
-			for n2 in reversed(pr.order):
+			for n2 in reversed(order):
 				check_module(acc, s, n2, dict(case, module=n2))
-			for n2 in reversed(pr.order):
+			for n2 in reversed(order):
 				s.unload(n2)
 				s.sources.pop(n2, None)
 		except Errors.Error as e:
